@@ -43,7 +43,11 @@ def from_text(text: str) -> int:
     """
 
     if text.isdecimal():
-        total = int(text)
+        try:
+            total = int(text)
+        except ValueError:
+            # more digits than the interpreter converts (sys.set_int_max_str_digits)
+            raise BadTTL("TTL should be between 0 and 2**32 - 1 (inclusive)")
     elif len(text) == 0:
         raise BadTTL
     else:
